@@ -20,7 +20,7 @@ ASSUMPTIONS = ['thorough tier only: a coverage-guided atheris campaign (16 x 60k
                'viable-prefix sets are exact because generated grammars are reduced (all rules productive and reachable)',
                'overlapping terminals are fixed strings, so dynamic and dynamic_complete see the same match lengths']
 
-O_TOK = gramgen.Opts(terms='tok', max_rules=4, ignore=True, templates=True, priorities=True, ignore_in_rules=True)
+O_TOK = gramgen.Opts(terms='tok', max_rules=4, ignore=True, templates=True, priorities=True, ignore_in_rules=True, shaping=True)     # shaping: aliases, ?, !, _ (error reporting walks the rules)
 O_OVL = gramgen.Opts(terms='ovl', max_rules=4, ignore=True, ignore_in_rules=True)
 
 
